@@ -292,4 +292,6 @@ pub fn run(ctx: &mut Ctx) {
 
     // hidden per-thread state: two-step histories from the initial state
     crate::history::two_step_histories(ctx, "C01", crate::history::Family::Accessors);
+    crate::history::alternating_with_anchor(ctx, "C01", crate::history::Family::Accessors);
+    crate::history::first_call_in_fresh_process(ctx, "C01", crate::history::Family::Accessors);
 }
